@@ -99,9 +99,10 @@ impl Property for C05 {
     }
     fn judge(&self, case: &Case, _strict: bool) -> Verdict {
         // the property speaks about documents whose outermost element is <svg>
+        // (a root in a namespace other than SVG's is not an SVG <svg> element: neither an svgdx document nor real SVG)
         let rooted = match crate::sxml::parse_document(&case.input) {
             Ok(evs) => evs.iter().find_map(|e| match e {
-                crate::sxml::Ev::Start { name, .. } => Some(name == "svg"),
+                crate::sxml::Ev::Start { name, attrs, .. } => Some(name == "svg" && attrs.iter().all(|(k, v)| k != "xmlns" || v == crate::props::c02::SVG_NS)),
                 _ => None,
             }) == Some(true),
             Err(_) => false,
